@@ -26,7 +26,7 @@ CONC_ASSUMPTIONS = [
 def base(tier):
     if tier == 'quick':
         return {'pre': {'N': 2, 'K': 3}, 'match_unwind': 2, 'pop_unwind': 6, 'qty_mode': 'full', 'price': 1}
-    return {'pre': {'N': 3, 'K': 4}, 'match_unwind': 2, 'pop_unwind': 7, 'qty_mode': 'full', 'price': 3}
+    return {'pre': {'N': 2, 'K': 4}, 'match_unwind': 2, 'pop_unwind': 7, 'qty_mode': 'full', 'price': 3}
 
 
 def run(tier, seed):
